@@ -140,11 +140,14 @@ pub fn run(args: &Args) -> Report {
                 v.truncate(per_class_quick);
                 v
             };
-            for l in chosen {
+            let r0 = rng.below(8) as usize;
+            for (j, l) in chosen.into_iter().enumerate() {
                 let cur = get(&base, l).unwrap();
                 let Some(orig) = mutate::leaf_big(cur) else { continue };
                 let is_hex = cur.is_string();
-                for (kind, val) in mutate::tamper_values(&orig, is_hex, mutate::int_max_for(l), &mut rng, k_values) {
+                // configuration numbers are few and cheap to refuse: every replacement kind, always
+                let k = if _c.starts_with("config") { usize::MAX } else { k_values };
+                for (kind, val) in mutate::tamper_values_rot(&orig, is_hex, mutate::int_max_for(l), &mut rng, k, r0 + j * k_values) {
                     muts.push((Mutation::Replace(l.clone(), kind, val), true));
                 }
             }
@@ -161,6 +164,10 @@ pub fn run(args: &Args) -> Report {
                 Mutation::Delete(p, _) => format!("delete from {}", path_class(p)),
                 Mutation::Append(p) => format!("append to {}", path_class(p)),
             };
+            if worker.skips(&class) {
+                rep.inc("skipped.class_with_established_worker_deaths");
+                continue;
+            }
             worker.begin(idx - 1, &class, &d.to_string());
             if let Some(v) = apply(&base, &m) {
                 match serde_json::from_value::<StarkProof>(v) {
